@@ -120,7 +120,9 @@ class Build:
             add.append('attributes #8%s = { noinline optnone %s }' % (gid, body.strip()))
         tmp = ssa + '.stage1.ll'
         open(tmp, 'w').write(st2 + '\n' + '\n'.join(add) + '\n')
-        r = subprocess.run(['opt-14', '-S', '-passes=sroa,sccp', tmp, '-o', ssa], capture_output=True, text=True)
+        r = subprocess.run(['opt-14', '-S', '-passes=' + os.environ.get('VERIF_HOST_PASSES', 'sroa,sccp,jump-threading'),
+                            '-jump-threading-threshold=' + os.environ.get('VERIF_JT', '6'), tmp, '-o', ssa],
+                           capture_output=True, text=True)
         if r.returncode != 0:
             broken('opt sroa failed for %s:\n%s' % (base, r.stderr[-2000:]))
         self.scalarized.setdefault(base, []).extend(sorted(hosts))
